@@ -6,6 +6,10 @@ import Driver.FlatMap
 import Driver.Str
 import Driver.Alloc
 import Driver.Names
+import Driver.SpscT
+import Driver.OverflowT
+import Driver.SeqLockT
+import Driver.ConnT
 open Driver
 
 partial def loop (c : Comp) (hin hout : IO.FS.Stream) (s : c.σ) (buf : String) (n : Nat) : IO Unit := do
@@ -19,7 +23,7 @@ partial def loop (c : Comp) (hin hout : IO.FS.Stream) (s : c.σ) (buf : String) 
     loop c hin hout s buf n
   else
     let (s', out) := c.step s t
-    let buf := buf ++ out ++ "\n"
+    let buf := if out.isEmpty then buf else buf ++ out ++ "\n"
     if n ≥ 2000 then
       hout.putStr buf
       loop c hin hout s' "" 0
@@ -33,7 +37,11 @@ def components : List (String × Comp) := [
   ("flatmap", FlatMapD.comp),
   ("string", StrD.comp),
   ("alloc", AllocD.comp),
-  ("names", NamesD.comp)
+  ("names", NamesD.comp),
+  ("spsc", SpscT.comp),
+  ("overflow", OverflowT.comp),
+  ("seqlock", SeqLockT.comp),
+  ("conn", ConnT.comp)
 ]
 
 def main (args : List String) : IO UInt32 := do
